@@ -1022,3 +1022,178 @@ Proof.
   rewrite (add_path_to_tree_ok c t0 (tname t0)) by (try reflexivity; exact Hx).
   rewrite ins_all_cons. apply IH; [|exact HF']. apply add_branch_name.
 Qed.
+
+(* ---------------------------------------------------------------------------------------------- *)
+(* dict round trip *)
+
+Lemma filter_true {A} (p : A -> bool) l : (forall x, p x = true) -> filter p l = l.
+Proof.
+  intros H. induction l as [|x l IH]; [reflexivity|]. cbn [filter]. rewrite H, IH. reflexivity.
+Qed.
+
+Lemma selected_full c : selected full_opts c = true.
+Proof. reflexivity. Qed.
+
+Lemma rel_nodes_in_pre t pr : In pr (rel_nodes t) -> In (snd pr) (pre t).
+Proof.
+  rewrite <- nodes_under_root. unfold nodes_under. destruct pr as [p x]. intros H.
+  apply in_combine_r in H. exact H.
+Qed.
+
+Lemma valid_node_attrs t x : valid_tree t = true -> In x (pre t) -> NoDup (map fst (tattrs x)).
+Proof.
+  unfold valid_tree. intros Hv Hx. rewrite forallb_forall in Hv. specialize (Hv x Hx).
+  destruct x as [g n a ks]. apply node_ok_inv in Hv as [_ [_ Ha]]. exact Ha.
+Qed.
+
+Definition full_record (x : tree) : record := (s_name, VStr (tname x)) :: describe x.
+
+Lemma dict_record_full c : NoDup (map fst (tattrs (snd c))) -> dict_record full_opts c = full_record (snd c).
+Proof.
+  intros H. unfold dict_record, full_record. cbn [full_opts o_name_key o_parent_key field app].
+  unfold requested. cbn [o_all_attrs]. apply dict_of_nodup. cbn [map fst]. constructor.
+  - apply describe_no_name.
+  - apply describe_keys_nodup. exact H.
+Qed.
+
+Lemma tree_to_dict_full c t : valid_tree t = true -> sep_safe [c] t = true ->
+  tree_to_dict t [c] [] full_opts
+  = Ret (map (fun pr => (path_name [c] (fst pr), full_record (snd pr))) (rel_nodes t)).
+Proof.
+  intros Hv Hs. rewrite (tree_to_dict_map t [c] [] full_opts (nodes_under [] t)).
+  - rewrite filter_true by apply selected_full. rewrite nodes_under_root. f_equal.
+    apply map_ext_in. intros pr Hpr. unfold c_path, path_name. f_equal. apply dict_record_full.
+    apply (valid_node_attrs t); [exact Hv|]. apply rel_nodes_in_pre. exact Hpr.
+  - reflexivity.
+  - rewrite filter_true by apply selected_full. apply paths_nodup; assumption.
+Qed.
+
+Lemma dict_del_full x : dict_del s_name (full_record x) = describe x.
+Proof.
+  unfold full_record, dict_del. cbn [filter fst]. rewrite str_eqb_refl. cbn [negb].
+  apply (dict_del_absent s_name (describe x)). apply describe_no_name.
+Qed.
+
+
+Lemma get_or_none k d other : @dict_get record k d = None -> get_or k d other = other.
+Proof. intros H. unfold get_or. rewrite H. reflexivity. Qed.
+
+Lemma get_or_hit k d x r other : @dict_get record k d = Some (x :: r) -> get_or k d other = x :: r.
+Proof. intros H. unfold get_or. rewrite H. reflexivity. Qed.
+
+Lemma dict_to_tree_gen c r R0 d' :
+  clean c r -> R0 <> [] ->
+  (forall k, In k (map fst d') -> exists s, k = c :: s) ->
+  dict_to_tree ((path_name [c] [r], R0) :: d') [c]
+  = add_paths [c] (map (fun pa => (fst pa, dict_del s_name (snd pa))) ((path_name [c] [r], R0) :: d'))
+              (T None r (dict_del s_name R0) []).
+Proof.
+  intros Hr HR Hk. unfold dict_to_tree. cbv zeta.
+  assert (Hb : branch_of (path_name [c] [r]) [c] = [r]).
+  { apply branch_of_path; [discriminate|]. constructor; [exact Hr|constructor]. }
+  rewrite Hb.
+  cbn [hd]. destruct Hr as [Hne Hcr].
+  assert (Hnone : dict_get r ((path_name [c] [r], R0) :: d') = None).
+  { apply dict_get_none. intros Hin. cbn [map fst] in Hin. destruct Hin as [E|Hin].
+    - apply Hcr. rewrite <- E. left. reflexivity.
+    - destruct (Hk r Hin) as [s E]. apply Hcr. rewrite E. left. reflexivity. }
+  rewrite get_or_none by exact Hnone.
+  destruct R0 as [|x R0]; [contradiction|].
+  rewrite (get_or_hit ([c] ++ r) _ x R0).
+  - destruct r as [|y r]; [contradiction|]. reflexivity.
+  - cbn [dict_get]. change (path_name [c] [r]) with ([c] ++ r). rewrite str_eqb_refl. reflexivity.
+Qed.
+
+Lemma dict_to_tree_export c t : valid_tree t = true -> sep_safe [c] t = true ->
+  dict_to_tree (map (fun pr => (path_name [c] (fst pr), full_record (snd pr))) (rel_nodes t)) [c]
+  = Ret (norm_tree false t).
+Proof.
+  intros Hv Hs. pose proof (names_clean_of c t Hv Hs) as Hc.
+  assert (Hmap : map (fun pa => (fst pa, dict_del s_name (snd pa)))
+                   (map (fun pr => (path_name [c] (fst pr), full_record (snd pr))) (rel_nodes t))
+                 = map (fun qr => (path_name [c] (tname t :: fst qr), snd qr)) (rel_recs describe t)).
+  { rewrite map_map. cbn [fst snd].
+    rewrite (map_ext _ (fun pr => (path_name [c] (fst pr), describe (snd pr)))) by (intros pr; rewrite dict_del_full; reflexivity).
+    rewrite <- (map_map (fun pr => (fst pr, describe (snd pr))) (fun z => (path_name [c] (fst z), snd z))).
+    rewrite rel_nodes_recs, map_map. reflexivity. }
+  assert (Ha : NoDup (map fst (tattrs t))) by (apply (valid_node_attrs t); [exact Hv|destruct t; left; reflexivity]).
+  destruct t as [g r a ks].
+  pose proof Hc as Hc'. apply names_clean_inv in Hc' as [Hr _].
+  set (G := fun pr : list str * tree => (path_name [c] (fst pr), full_record (snd pr))) in *.
+  change (map G (rel_nodes (T g r a ks)))
+    with ((path_name [c] [r], full_record (T g r a ks))
+            :: map G (flat_map (fun k => map (fun pr => (r :: fst pr, snd pr)) (rel_nodes k)) ks)) at 1.
+  rewrite dict_to_tree_gen.
+  - change ((path_name [c] [r], full_record (T g r a ks))
+            :: map G (flat_map (fun k => map (fun pr => (r :: fst pr, snd pr)) (rel_nodes k)) ks))
+      with (map G (rel_nodes (T g r a ks))).
+    rewrite Hmap, dict_del_full. cbn [tname]. rewrite (add_paths_ok c r).
+    + f_equal. cbn [tattrs] in Ha. rewrite (rebuild_from_records describe (T g r a ks)).
+      * rewrite norm_tree_rebuild. clear. induction (T g r a ks) as [g' n' a' ks' IH] using tree_ind'.
+        cbn [rebuild tattrs]. f_equal; [symmetry; apply norm_attrs_false|].
+        apply map_ext_in. intros k Hk. rewrite Forall_forall in IH. apply IH. exact Hk.
+      * exact Hv.
+      * intros x. apply describe_keys_nodup.
+      * apply dict_update_present; [apply describe_keys_nodup; exact Ha|apply incl_refl].
+    + reflexivity.
+    + apply (rel_recs_clean c describe (T g r a ks)). exact Hc.
+  - exact Hr.
+  - discriminate.
+  - intros k Hin. rewrite map_map in Hin. cbn [fst] in Hin. apply in_map_iff in Hin as [pr [E _]].
+    subst k. eexists. reflexivity.
+Qed.
+
+Theorem rt_dict_ok c t : valid_tree t = true -> sep_safe [c] t = true ->
+  rt_dict t [c] = Ret (norm_tree false t).
+Proof.
+  intros Hv Hs. unfold rt_dict. rewrite tree_to_dict_full by assumption. cbn [bind].
+  apply dict_to_tree_export; assumption.
+Qed.
+
+(* ---------------------------------------------------------------------------------------------- *)
+(* the boolean property on the model's (canonicalised) outputs *)
+
+Lemma list_eqb_refl {A} (e : A -> A -> bool) l : (forall x, e x x = true) -> list_eqb e l l = true.
+Proof. intros H. induction l as [|x l IH]; [reflexivity|]. cbn [list_eqb]. rewrite H, IH. reflexivity. Qed.
+
+Lemma record_eqb_refl r : record_eqb r r = true.
+Proof. apply (attrs_eqb_refl r). Qed.
+
+Lemma pathrec_eqb_refl x : pathrec_eqb x x = true.
+Proof. unfold pathrec_eqb. rewrite str_eqb_refl, record_eqb_refl. reflexivity. Qed.
+
+Theorem prop_dict_model root sep p o :
+  prop_C06_dict root sep p o (res_map canon_dict (tree_to_dict root sep p o)) = true.
+Proof.
+  unfold prop_C06_dict. rewrite tree_to_dict_spec. destruct (spec_dict root sep p o) as [d|]; [|reflexivity].
+  cbn [option_map res_map opt_agree]. apply list_eqb_refl. apply pathrec_eqb_refl.
+Qed.
+
+Theorem prop_frame_model root sep p o :
+  prop_C06_frame root sep p o (res_map canon_rows (tree_to_dataframe root sep p o)) = true.
+Proof.
+  unfold prop_C06_frame. rewrite tree_to_dataframe_spec. destruct (spec_frame root sep p o) as [d|]; [|reflexivity].
+  cbn [option_map res_map opt_agree]. apply list_eqb_refl. apply record_eqb_refl.
+Qed.
+
+Theorem prop_nested_model root p o : subtree_at root p <> None ->
+  prop_C06_nested root p o (res_map canon_nested (tree_to_nested_dict root p o)) = true.
+Proof.
+  intros Hp. unfold prop_C06_nested. rewrite tree_to_nested_dict_spec.
+  destruct (subtree_at root p) as [t|]; [|contradiction].
+  destruct (spec_nested root p o) as [d|]; [|reflexivity].
+  cbn [option_map res_map opt_agree]. apply tree_eqb_refl.
+Qed.
+
+Theorem prop_rt_dict_model c t : prop_rt_path false [c] t (rt_dict t [c]) = true.
+Proof.
+  unfold prop_rt_path. destruct (valid_tree t) eqn:Hv; [|reflexivity].
+  destruct (sep_safe [c] t) eqn:Hs; [|reflexivity]. cbn [andb negb orb].
+  rewrite rt_dict_ok by assumption. apply same_tree_norm. exact Hv.
+Qed.
+
+Theorem prop_rt_nested_model t : prop_rt_nested t (rt_nested t) = true.
+Proof.
+  unfold prop_rt_nested. destruct (valid_tree t) eqn:Hv; [|reflexivity].
+  rewrite rt_nested_ok by exact Hv. apply same_tree_norm. exact Hv.
+Qed.
